@@ -98,20 +98,39 @@ def cmd_verify(sid):
     print(sid, "confirmed" if m["confirmed"] else "NOT CONFIRMED", dict(applies=rca == 0, passes_without=ok_without, fails_with=fails_with, suite=suite))
 
 
-def cmd_check(sid, tier="quick"):
+def cmd_check(sid, tier="quick", where="repo"):
+    """where=repo: apply to /repo, run, undo (the brief's recipe).  where=worktree: apply to a scratch worktree of /repo's HEAD and point the
+    checks at it with VERIF_REPO - same code under check, but /repo is never touched (safe while another pass is reading /repo)."""
     m = load(sid)
     prop = m["property"]
     rc, out = sh(["git", "-C", "/repo", "status", "--porcelain", "--untracked-files=no"])
     if out.strip():
         print("refusing: /repo has uncommitted changes")
         return
-    rca, outa = sh(["git", "-C", "/repo", "apply", os.path.join(SEEDED, sid, "patch.diff")])
-    try:
-        t0 = time.time()
-        os.environ["VERIF_EVIDENCE_DIR"] = os.path.join(HERE, ".cache", "evidence-seeded")   # never clobber the committed evidence
-        rc, out = sh([os.path.join(HERE, "vx"), "check", prop, "--tier", tier], cwd=HERE, timeout=7200)
-    finally:
-        sh(["git", "-C", "/repo", "checkout", "--", "."])
+    os.environ["VERIF_EVIDENCE_DIR"] = os.path.join(HERE, ".cache", "evidence-seeded")   # never clobber the committed evidence
+    t0 = time.time()
+    if where == "worktree":
+        wt = "/tmp/seedw-%s" % sid
+        sh(["git", "-C", "/repo", "worktree", "remove", "--force", wt])
+        sh(["git", "-C", "/repo", "worktree", "add", "--detach", wt, "HEAD"])
+        try:
+            rca, outa = sh(["git", "-C", wt, "apply", os.path.join(SEEDED, sid, "patch.diff")])
+            if rca != 0:
+                print("patch does not apply", outa)
+                return
+            os.environ["VERIF_REPO"] = wt
+            os.environ["VERIF_STAGE_ROOT"] = "/tmp/linfa-verif-seed"
+            os.environ["VERIF_KANI_TARGET"] = "/tmp/linfa-verif-seed/kani-target"
+            rc, out = sh([os.path.join(HERE, "vx"), "check", prop, "--tier", tier], cwd=HERE, timeout=7200)
+        finally:
+            sh(["git", "-C", "/repo", "worktree", "remove", "--force", wt])
+            shutil.rmtree("/tmp/linfa-verif-seed/%s" % prop, ignore_errors=True)
+    else:
+        rca, outa = sh(["git", "-C", "/repo", "apply", os.path.join(SEEDED, sid, "patch.diff")])
+        try:
+            rc, out = sh([os.path.join(HERE, "vx"), "check", prop, "--tier", tier], cwd=HERE, timeout=7200)
+        finally:
+            sh(["git", "-C", "/repo", "checkout", "--", "."])
     lines = [l for l in out.splitlines() if l.startswith(("VIOLATION", "UNDECIDED")) or (l.startswith("UNIT") and "discharged" not in l)]
     lines = [l for l in lines if not (l.startswith("UNIT") and any(("property=%s" % prop) in k and False for k in []))]
     m.setdefault("checks", {})[tier] = dict(exit=rc, wall_s=round(time.time() - t0), lines=lines[:24], at=time.strftime("%Y-%m-%d %H:%M"),
